@@ -62,6 +62,14 @@ class CapHit(BaseException):
     """raised when a run exceeds the test cap (non-termination guard)"""
 
 
+class Hang(BaseException):
+    """raised by the watchdog timer: the run did not finish within its wall-clock budget"""
+
+
+def _on_alarm(signum, frame):
+    raise Hang()
+
+
 class Scripted:
     """The condition script object handed to Lithium."""
 
@@ -153,7 +161,7 @@ class Run:
 
 
 def impl_run(strategy, cfg, tc, file0, verdict, clock=(), exc_class=TestRaised, atom="line",
-             cap=5000, load=False, ext=".txt"):
+             cap=5000, load=False, ext=".txt", watchdog=60.0):
     """tc = (before, parts, reducible, after) placed directly into a testcase object, or (when
     load=True) ignored in favour of Testcase.load(file0).  verdict: str or callable(k, data)."""
     import lithium.strategies as st
@@ -195,6 +203,8 @@ def impl_run(strategy, cfg, tc, file0, verdict, clock=(), exc_class=TestRaised, 
         orig_try = st.ReductionIterator.try_testcase
 
         def try_wrapper(self, tcase, description="Reduction"):
+            if len(steps) > 50 * (cap or 5000):
+                raise CapHit()  # proposals without end (all skipped): a spinning strategy
             nw = events.count("W")
             if nw > script.w_mark:
                 cur = Path(path).read_bytes()
@@ -207,13 +217,23 @@ def impl_run(strategy, cfg, tc, file0, verdict, clock=(), exc_class=TestRaised, 
         st.ReductionIterator.try_testcase = try_wrapper
         _watch.update(path=os.path.abspath(path), tmp=os.path.abspath(tmp), events=events)
         tail = ""
+        import signal
+        old_handler = signal.signal(signal.SIGALRM, _on_alarm)
+        signal.setitimer(signal.ITIMER_REAL, watchdog)
         try:
-            rc = lith.run()
+            try:
+                rc = lith.run()
+            finally:
+                signal.setitimer(signal.ITIMER_REAL, 0)
+                signal.signal(signal.SIGALRM, old_handler)
             res.rc = rc
             tail = f"rc={rc}"
         except CapHit:
             res.exc = "CapHit"
             tail = "cap"
+        except Hang:
+            res.exc = "Hang"
+            tail = "hang"
         except exc_class as e:  # the scripted exception came back out
             res.exc = "test"
             tail = "exc=test"
